@@ -5,7 +5,7 @@
    [ftile]            a FITS tile file: array + DATAMIN / DATAMAX cards (absent = None);
    [save_fits]        Image.save: explicit range if given, else the array's own finite range;
    [range_callback]   TileMerger.walk_callback on four optional child files (merged pixels by
-                      Merge.merge_tiles, cards by _get_min_max_of_children);
+                      Merge.merge_tiles_fixed, cards by _get_min_max_of_children);
    [range_spec k leaves fuel p]  the tile file at p after a cascade from [fuel] levels below;
    [leaf_vals leaves fuel p]     all finite pixel values of the leaf tiles beneath p;
    [is_min_of o l] / [is_max_of o l]  o = Some m with m in l and m <= (>=) every element of l;
@@ -50,7 +50,7 @@ Print Assumptions root_range_in_wtml.
 Theorem range_callback_spec :
   forall k cs t,
     range_callback k cs = Some (Some t) ->
-    exists m, merge_tiles Fits k (map (option_map ft_img) cs) = Some (Some m) /\
+    exists m, merge_tiles_fixed Fits k (map (option_map ft_img) cs) = Some (Some m) /\
               is_completely_masked m = false /\ ft_img t = m /\
               ft_min t = match qmin_opt (opt_vals (map (fun c => match c with Some x => ft_min x | None => None end) cs)) with
                          | Some v => Some v | None => qmin_opt (finite_vals m) end /\
@@ -74,7 +74,7 @@ Theorem range_pixels_are_cascade :
     forall fuel p,
       option_map ft_img (range_spec k leaves fuel p) =
       option_map (decode (orc p))
-                 (pyramid_spec upd_px Fits k orc
+                 (pyramid_spec upd_px_fixed Fits k orc
                                (fun q => option_map (fun t => FExact (ft_img t)) (leaves q)) fuel p).
 Proof. exact range_pixels_lemma. Qed.
 Print Assumptions range_pixels_are_cascade.
